@@ -360,6 +360,19 @@ func judge(r *kit.Run, a *adapter, before, after *tracked, cs []*hdrCase, what s
 		}
 	}
 	key := a.name + ":advance-not-justified"
+	if len(cs) > 1 {
+		// the final record must be the end of an in-order chain of justified headers; if a justified
+		// chain reaches a HIGHER height than the stored one, the tracked height went down inside the call
+		var top int64
+		for _, t := range reach[1:] {
+			if t.H > top {
+				top = t.H
+			}
+		}
+		if top > after.H {
+			key = a.name + ":tracked-height-decreased-within-call"
+		}
+	}
 	if len(cs) == 1 {
 		c := cs[0]
 		switch {
@@ -556,15 +569,35 @@ func headerEpisode(t *testing.T, r *kit.Run, a *adapter, rng *rand.Rand, maxN, s
 			cs = append(cs, a.build(rng, s, "commit-mismatch"))
 			opName = "commit-mismatch"
 		case 9: // several headers in one call: an honest chain, optionally with a bad link
+			// Order of the heights inside the call: ascending (what relayers send), descending
+			// (every later link chains onto the previous one's next set but sits LOWER, still above
+			// the stored height) or arbitrary (equal heights included).
 			k := 2 + rng.Intn(2)
+			order := rng.Intn(3)
 			badAt := -1
-			if rng.Intn(2) == 0 {
+			if rng.Intn(2+2*order) == 0 {
 				badAt = rng.Intn(k)
 			}
-			vs, ex, h := cur, exact, before.H
+			heights := make([]int64, k)
+			hh := before.H
+			for i := range heights {
+				hh += int64(1 + rng.Intn(3))
+				heights[i] = hh
+			}
+			switch order {
+			case 1:
+				for i, j := 0, k-1; i < j; i, j = i+1, j-1 {
+					heights[i], heights[j] = heights[j], heights[i]
+				}
+			case 2:
+				for i := range heights {
+					heights[i] = before.H + int64(1+rng.Intn(6))
+				}
+			}
+			vs, ex := cur, exact
 			for i := 0; i < k; i++ {
 				nx, nxEx := newSet(rng, a, 1+rng.Intn(maxN), shapes[rng.Intn(len(shapes))])
-				h += int64(1 + rng.Intn(3))
+				h := heights[i]
 				s := tmsynth.Spec{Height: h, BlockVersion: bv, Vals: vs, NextHash: remember(nx, nxEx, bv), Salt: byte(step)}
 				mode := "above"
 				if i == badAt {
@@ -574,7 +607,7 @@ func headerEpisode(t *testing.T, r *kit.Run, a *adapter, rng *rand.Rand, maxN, s
 				cs = append(cs, a.build(rng, s, fmt.Sprintf("multi-%d-%s", i, mode)))
 				vs, ex = nx, nxEx
 			}
-			opName = "multi"
+			opName = []string{"multi", "multi-descending", "multi-unordered"}[order]
 		case 10: // no validator change announced (never useful to the light client)
 			s := base
 			s.NextHash = tmsynth.Hash(cur, bv)
@@ -885,7 +918,7 @@ func depositEpisode(t *testing.T, r *kit.Run, a *adapter, rng *rand.Rand, maxN, 
 func TestC30(t *testing.T) {
 	r := kit.Start(t, "C30", "exploration")
 	defer r.Finish()
-	r.Rule("per router: episodes = a synthetic chain (block version, N validators, power shape) followed through submissions of kinds {honest minimal/all quorum, at most 2/3 (just below / exactly) with absent+nil fillers, same with forged/wrong-height/wrong-block/wrong-chain/foreign-key/nil-as-commit fillers, quorum+noise, foreign validator set, not-higher height, commit/header mismatch, multi-header calls, no-change, second genesis}; deposits = {honest existence, wrong value, wrong key path, other/random app hash, unverifiable header, absence proof with empty / non-empty key path, existence proof with empty key path, proof of another key}; distinct = (router, version, N, shape, kind, slot-kind vector, quorum class, outcome)")
+	r.Rule("per router: episodes = a synthetic chain (block version, N validators, power shape) followed through submissions of kinds {honest minimal/all quorum, at most 2/3 (just below / exactly) with absent+nil fillers, same with forged/wrong-height/wrong-block/wrong-chain/foreign-key/nil-as-commit fillers, quorum+noise, foreign validator set, not-higher height, commit/header mismatch, multi-header calls (heights ascending / descending / arbitrary within the call), no-change, second genesis}; deposits = {honest existence, wrong value, wrong key path, other/random app hash, unverifiable header, absence proof with empty / non-empty key path, existence proof with empty key path, proof of another key}; distinct = (router, version, N, shape, kind, slot-kind vector, quorum class, outcome)")
 	r.Assume("tendermint v0.33.7 / switcheo tendermint v0.34.14 (hashes, sign-bytes, key types), cosmos-sdk v0.39.1 rootmulti + iavl v0.14.0 (app hashes, proofs) are the reference producers of honest data")
 	r.Assume("'valid signature' is judged by construction: a slot counts iff the check itself signed the canonical precommit (chain id, commit height = header height, round, block id = header hash) with the validator's own key")
 	r.Assume("'validator set hashes to the trusted next-validator hash' accepts either the amino-era or the protobuf-era hash of the submitted set (weaker reading, covers the chain-upgrade block)")
@@ -938,12 +971,15 @@ func TestC30(t *testing.T) {
 	r.Set("routers_covered", []string{"cosmos (block versions 10, 11, upgrade 10->11; header sync + deposits)", "okex (header sync + deposits)", "polygon heimdall (header sync only)"})
 	r.Set("routers_uncovered", []string{"heimdall span proofs (VerifySpan) are reached only through the bor router and are not exercised"})
 	r.Require("heimdall_honest_advanced", r.N(10, 100))
+	r.Require("heimdall_op_multi-descending", r.N(5, 60))
+	r.Require("heimdall_multi_advanced", r.N(5, 60))
 	r.Require("heimdall_unchanged", r.N(30, 300))
 	for _, a := range []*adapter{cos, okx} {
 		r.Require(a.name+"_honest_advanced", r.N(20, 200))
 		r.Require(a.name+"_calls_refused", r.N(20, 200))
 		r.Require(a.name+"_exact_two_thirds_refused", r.N(3, 30))
 		r.Require(a.name+"_op_not-higher", 3)
+		r.Require(a.name+"_op_multi-descending", 3)
 		r.Require(a.name+"_op_foreign-valset", 3)
 		r.Require(a.name+"_deposit_honest_accepted", r.N(3, 30))
 		r.Require(a.name+"_deposit_refused", r.N(10, 100))
